@@ -35,7 +35,7 @@ func main() {
 func cmdRun(args []string) {
 	fs := flag.NewFlagSet("run", flag.ExitOnError)
 	repo := fs.String("repo", "/repo", "repository root")
-	hdir := fs.String("harness-dir", "/verif/harness", "harness directory")
+	hdir := fs.String("harness-dir", verifRoot+"/harness", "harness directory")
 	pkgs := fs.String("pkgs", ".", "comma separated package dirs")
 	hs := fs.String("h", "", "comma separated harness functions")
 	tier := fs.String("tier", "quick", "tier")
@@ -60,7 +60,7 @@ func cmdRun(args []string) {
 	e.tier = *tier
 	e.workers = *workers
 	e.solverArgv = strings.Fields(*solver)
-	e.loadKnown("/verif/known_findings.json")
+	e.loadKnown(verifRoot + "/known_findings.json")
 	fmt.Fprintf(os.Stderr, "loaded in %.1fs\n", time.Since(t0).Seconds())
 	for _, name := range strings.Split(*hs, ",") {
 		h := e.RunHarness(name, *maxPaths, *timeout)
